@@ -14,6 +14,7 @@ import (
 	"sort"
 	"strconv"
 	"strings"
+	"sync"
 	"time"
 )
 
@@ -92,11 +93,35 @@ func nativeRun(repo, verif string, dirFiles map[string][]string, h harnessInfo, 
 	os.WriteFile(testFile, []byte(sb.String()), 0o644)
 	dirs := map[string]bool{h.Dir: true}
 	ov := overlayFor(repo, verif, dirFiles, dirs, map[string]string{filepath.Join(repo, h.Dir, "zz_verif_replay_test.go"): testFile})
+	// schedule control: instrumented copies of every file of the package (sync points, go statements)
+	instrumented := map[string]bool{}
+	if replayHasSchedule(replayPath) {
+		srcs, ierr := instrumentedSources(h.Dir)
+		if ierr != nil {
+			return "", ierr
+		}
+		k := 0
+		for vpath, src := range srcs {
+			src = reTimeNow.ReplaceAll(src, []byte("verifrt.Now()"))
+			src = reTimeSince.ReplaceAll(src, []byte("verifrt.Since("))
+			if bytes.Contains(src, []byte("\"time\"")) {
+				src = append(src, []byte("\nvar _ = time.Now\n")...)
+			}
+			k++
+			cp := filepath.Join(tmp, fmt.Sprintf("ins%d_%s", k, filepath.Base(vpath)))
+			os.WriteFile(cp, src, 0o644)
+			ov[vpath] = cp
+			instrumented[vpath] = true
+		}
+	}
 	// clock control: rewrite time.Now() -> verifrt.Now() in copies of the package's non-test sources
 	entries, _ := os.ReadDir(filepath.Join(repo, h.Dir))
 	for _, e := range entries {
 		n := e.Name()
 		if e.IsDir() || !strings.HasSuffix(n, ".go") || strings.HasSuffix(n, "_test.go") {
+			continue
+		}
+		if instrumented[filepath.Join(repo, h.Dir, n)] {
 			continue
 		}
 		src, err := os.ReadFile(filepath.Join(repo, h.Dir, n))
@@ -265,4 +290,35 @@ func selftest() int {
 	}
 	fmt.Println("selftest ok:", len(terms)*len(models), "evaluations agree with z3")
 	return 0
+}
+
+func replayHasSchedule(path string) bool {
+	data, err := os.ReadFile(path)
+	if err != nil {
+		return false
+	}
+	var r replayJSON
+	if json.Unmarshal(data, &r) != nil {
+		return false
+	}
+	return len(r.Schedule) > 0
+}
+
+var (
+	insMu    sync.Mutex
+	insCache = map[string]map[string][]byte{}
+)
+
+func instrumentedSources(dir string) (map[string][]byte, error) {
+	insMu.Lock()
+	defer insMu.Unlock()
+	if c, ok := insCache[dir]; ok {
+		return c, nil
+	}
+	c, err := instrumentPackage(dir)
+	if err != nil {
+		return nil, err
+	}
+	insCache[dir] = c
+	return c, nil
 }
